@@ -649,14 +649,15 @@ func (idx *indexer) indexSince(txID uint64) error {
 
 			n := serializeIndexableEntry(b[:], txmd, e, kvmd)
 
-			idx._kvs[indexableEntries].K = targetKey
+			// targetKey may alias the key buffer of idx.tx which is overwritten when the next transaction of the bulk is read
+			idx._kvs[indexableEntries].K = append(idx._kvs[indexableEntries].K[:0], targetKey...)
 			idx._kvs[indexableEntries].V = b[:n]
 			idx._kvs[indexableEntries].T = txID + uint64(i)
 
 			indexableEntries++
 			txIndexedEntries++
 
-			if idx.spec.InjectiveMapping && txID > 1 {
+			if idx.spec.InjectiveMapping && txID+uint64(i) > 1 {
 				// wait for source indexer to be up to date
 				sourceIndexer, err := idx.store.getIndexerFor(sourceKey)
 				if errors.Is(err, ErrIndexNotFound) {
@@ -665,13 +666,13 @@ func (idx *indexer) indexSince(txID uint64) error {
 					return err
 				}
 
-				err = sourceIndexer.WaitForIndexingUpto(context.Background(), txID-1)
+				err = sourceIndexer.WaitForIndexingUpto(context.Background(), txID+uint64(i)-1)
 				if err != nil {
 					return err
 				}
 
 				// the previous entry as of txID must be deleted from the target index
-				_, prevTxID, _, err := sourceIndexer.index.GetBetween(sourceKey, 1, txID-1)
+				_, prevTxID, _, err := sourceIndexer.index.GetBetween(sourceKey, 1, txID+uint64(i)-1)
 				if err == nil {
 					prevEntry, prevTxHdr, err := idx.store.ReadTxEntry(prevTxID, e.key(), false)
 					if err != nil {
@@ -714,7 +715,7 @@ func (idx *indexer) indexSince(txID uint64) error {
 
 					n := serializeIndexableEntry(b[:], txmd, prevEntry, kvmd.Bytes())
 
-					idx._kvs[indexableEntries].K = targetPrevKey
+					idx._kvs[indexableEntries].K = append(idx._kvs[indexableEntries].K[:0], targetPrevKey...)
 					idx._kvs[indexableEntries].V = b[:n]
 					idx._kvs[indexableEntries].T = txID + uint64(i)
 
